@@ -61,8 +61,34 @@ def run(ctx):
                            "explain": "C07_path_shape fixes the printed bytes: starting point as given, names joined by '/', one delimiter"})
         ctx.sample({"starting_point": cases[0][2].decode("utf-8", "replace"), "tree": wc.spec_json(cases[0][1])})
         pipeline(ctx, forest, cases)
+        to_file(ctx, forest, cases)
     finally:
         forest.close()
+
+
+def to_file(ctx, forest, cases):
+    """the same records through -fprint0 / -fprint (the printer is shared): the list file holds exactly the records of this run,
+    also when it existed before with other, longer content - otherwise xargs -0 < FILE hands over paths that were never matched"""
+    rng = ctx.rng
+    n = 30 if ctx.thorough else 6
+    for idx, (nm, spec, root, d) in enumerate(cases[:n]):
+        target = os.path.join(forest.dir, b"list%d" % idx)
+        state = rng.choice(["absent", "longer", "longer", "shorter"])
+        exp = b"".join(nc.join_ref(root, list(names)) + bytes([d]) for names in nc.listing(spec))
+        if state != "absent":
+            open(target, "wb").write(b"stale/record\0" * (3 if state == "shorter" else len(exp) // 8 + 50))
+        flag = b"-fprint0" if d == 0 else b"-fprint"
+        code, out, err = wc.decode_find(xc.run_impl([nc.find_line(forest.dir, [root, b"-sorted", flag, target])])[0])
+        got = open(target, "rb").read() if os.path.exists(target) else None
+        ctx.count(("to-file", nm, root, d, state), True, ["to-file", "target=" + state])
+        if got != exp or code != 0 or out != b"":
+            ctx.violation("find %r %s FILE (FILE %s before the run): exit %s; FILE holds %d bytes, expected exactly the %d bytes of this run's records%s"
+                          % (root, flag.decode(), state, code, -1 if got is None else len(got), len(exp),
+                             "; the tail is old content" if got and got.startswith(exp) and len(got) > len(exp) else ""),
+                          {"property": "C07", "kind": "to-file", "starting_point": fw.hexs(root), "action": flag.decode(), "target_before": state, "exit": code,
+                           "file_hex_tail": fw.hexs((got or b"")[-60:]), "expected_hex_tail": fw.hexs(exp[-60:])})
+        if os.path.exists(target):
+            os.remove(target)
 
 
 def long_tree(rng):
